@@ -21,6 +21,7 @@ type KnownFinding struct {
 	Property   string
 	Obligation string
 	When       string // spec expression delimiting the failing region (optional)
+	Input      string // bounded stand-ins: regular expression over the GOVC-BOUNDED-FAIL lines this finding accounts for
 	Text       string
 }
 
@@ -53,6 +54,12 @@ func loadKnownFindings(path string) ([]KnownFinding, error) {
 			}
 			if strings.HasPrefix(f, "obligation=") {
 				kf.Obligation = strings.TrimPrefix(f, "obligation=")
+			}
+		}
+		if i := strings.Index(l, " input=`"); i >= 0 {
+			rest := l[i+8:]
+			if j := strings.Index(rest, "`"); j >= 0 {
+				kf.Input = rest[:j]
 			}
 		}
 		if i := strings.Index(l, " when=`"); i >= 0 {
@@ -286,9 +293,43 @@ func cmdCheck(args []string) {
 		os.WriteFile(filepath.Join(verifRoot, "obligations", *prop+".txt"), []byte("# obligation base names this property must generate (suffixes ~k and /k stripped)\n"+strings.Join(sortedKeys(producedBase), "\n")+"\n"), 0o644)
 		pinned = nil
 	}
-	for _, b := range bounded {
+	for bi := range bounded {
+		b := &bounded[bi]
 		if b.OK {
 			continue
+		}
+		// failures of a bounded stand-in that open known findings account for, input by input
+		if len(b.FailLines) > 0 && len(b.FailLines) == b.Failures {
+			matched := map[int]bool{}
+			var unmatched []string
+			for _, fl := range b.FailLines {
+				hit := false
+				for ki, kf := range known {
+					if kf.State == "open" && kf.Property == *prop && kf.Obligation == "bounded:"+b.Name && kf.Input != "" {
+						if re, err := regexp.Compile(kf.Input); err == nil && re.MatchString(fl) {
+							matched[ki] = true
+							hit = true
+							break
+						}
+					}
+				}
+				if !hit {
+					unmatched = append(unmatched, fl)
+				}
+			}
+			if len(unmatched) == 0 {
+				for ki := range matched {
+					line := "KNOWN-FINDING: " + strings.TrimPrefix(known[ki].Text, "open: ")
+					knownLines = append(knownLines, line)
+					b.Known = append(b.Known, line)
+				}
+				b.OK = true
+				continue
+			}
+			if len(unmatched) > 12 {
+				unmatched = unmatched[:12]
+			}
+			b.Output = strings.Join(unmatched, "\n")
 		}
 		violations++
 		dir := filepath.Join(verifRoot, "out", "replay", *prop)
